@@ -727,6 +727,30 @@ def run(family, tier="quick", seed=0, prop=None, only=None):
         t.start()
     for t in threads:
         t.join()
+    # harnesses that timed out or left no section (heavily loaded machine): one retry with the
+    # thorough-tier time limits before they are reported as inconclusive
+    retry = [h for h in hs if parsed.get(h["name"]) is None or parsed[h["name"]]["status"] in ("TIMEOUT", "UNKNOWN")]
+    if retry and tier == "quick":
+        common.log("K %s: retrying %d harnesses with longer limits" % (family, len(retry)))
+        for n in [h["name"] for h in retry]:
+            parsed.pop(n, None)
+        rb = split_batches(retry, K_SLOTS, BATCH_BUDGET["thorough"])
+
+        def rework(i, batch):
+            names = [h["name"] for h in batch]
+            text, rc, secs, log_path = run_batch(names, "thorough", "%s.%s.%d.r%d" % (prop, family, os.getpid(), i))
+            sections = parse_log(text)
+            with lock:
+                for n in names:
+                    logs[n] = log_path
+                    if n in sections:
+                        parsed[n] = sections[n]
+
+        threads = [threading.Thread(target=rework, args=(i, b)) for i, b in enumerate(rb)]
+        for t in threads:
+            t.start()
+        for t in threads:
+            t.join()
     # verdicts; native playbacks of failing harnesses run concurrently (they share one cargo target dir,
     # so the builds serialise on cargo's lock, the rest overlaps)
     with _pb_lock:
